@@ -34,6 +34,8 @@ func (db *DB) basicImport(ctx context.Context, filepath string) (err error) {
 	}()
 
 	d := json.NewDecoder(bufio.NewReader(f))
+	// Numbers must not be decoded as float64, otherwise large integers lose precision.
+	d.UseNumber()
 
 	t, err := d.Token()
 	if err != nil {
